@@ -348,12 +348,28 @@ PROPS["C09"] = {
   "assumptions": ["a future is only ever dropped at an await point that returned Pending (Rust async semantics)"],
 }
 
+PROPS["C12"] = {
+  "units": ["trie"],
+  "kani_quick": [], "kani_thorough": [],
+  "claim": "Matcher semantics only, proved for every topic, every subscription set and every history of subscribe/unsubscribe calls (representation invariant of the abstract view) on the verbatim SubscriptionTrie::{matches, subscribe, unsubscribe}: "
+           "against the view cnt(p) = number of active subscriptions to exactly the byte string p, matches(t) is true iff some p with cnt(p) > 0 is a byte-prefix of t (the empty subscription is the prefix of length 0); "
+           "subscribe(t) adds one to exactly cnt(t); unsubscribe(t) removes one iff cnt(t) > 0 (and reports whether that was the last one), and an unsubscribe of something never subscribed changes nothing "
+           "(so a topic subscribed N times stays active until unsubscribed N times); no other topic's count is touched by either.",
+  "level_note": "Sequential semantics: each call is verified as if it ran alone. The trie cells are Arc<RwLock<TrieNode>> with an AtomicUsize count; a node handle is identified by its path and the operations on a handle "
+                "(read guard: count.load / children.get; write guard: children.entry(b).or_insert_with; count.fetch_add / fetch_sub, wrapping) enter as stand-ins whose contracts are the HashMap / atomic semantics over the abstract view. "
+                "Not covered: interleavings of matches with subscribe/unsubscribe on other threads (unsubscribe below zero wraps the counter to usize::MAX for an instant before restoring it: a concurrent matches can see it), "
+                "publication order, duplicates, and the publisher never blocking on a slow subscriber (Distributor fan-out): schedule properties. get_all_topics (recursive, iterator adapters) is not under contract.",
+  "technique": "contract-based deductive verification (Verus on extracted real functions; abstract prefix-count view of the trie, loop invariants over the cursor path, prefix-closure lemmas)",
+  "trusted_base": ["units/trie.py glue: NodeRef / NodeGuard / CountCell / ChildMap stand-ins for Arc<RwLock<TrieNode>>, its guards, AtomicUsize and HashMap<u8, _> (contracts = their std semantics over the view)",
+                   "prelude/core.rs, vstd Map/Set/Seq"],
+  "assumptions": ["calls on one trie do not interleave (sequential semantics)", "counts stay below usize::MAX (precondition of subscribe)"],
+}
+
 NOT_BUILT = "check not built yet in this revision (planned, see DESIGN.md section 9)"
 NOT_APPLICABLE = {
  
 
   "C08": "lost wake-ups are an invariant over interleavings of individual atomic/channel steps plus a liveness claim; Kani has no threads and Verus would need its own atomic/permission types, i.e. a re-implementation (a model), not the code that runs (DESIGN.md section 6)",
-  "C12": "SubscriptionTrie is Arc<RwLock<TrieNode>> nodes with HashMap children and an AtomicUsize: no abstract view without rewriting it (Verus), parking_lot crashes kani-compiler 0.68; non-blocking fan-out is a schedule property",
   "C15": "the deciding state (bytes framed but unwritten in another actor, kernel buffers, the close deadline) spans actors and the OS; no contract over one function expresses 'accepted messages are transmitted within LINGER'",
   "C16": "termination/liveness of close()/term() over all API histories and tasks: Verus proves termination of single functions, Kani none",
   "C20": "relational whole-system claim (io_uring vs tokio backend), kernel dependent and feature-gated out of the default build",
